@@ -65,3 +65,33 @@ let run (id : string) (ops : string list) (out : out_channel) =
   | _ -> ()   (* real-layer cases: implementation-side oracle only *)
 
 let registered = Registry.register "C05parser" run
+
+(* ---- extraction cross-check inside Coq (see c18.ml): run_case (same fixed/orig flag) on the case's
+   family rows and ops, recomputed by vm_compute, must equal the obs list this extracted runner computed. *)
+module P = C05ParserModel
+let coq_row (r : P.srow) =
+  Printf.sprintf "mkRow %s %s %s %s %s %s %s" (coq_zlist r.P.w_can) (coq_z r.P.w_mode) (coq_z r.P.w_clen) (coq_z r.P.w_next)
+    (coq_z r.P.w_out) (coq_bool r.P.w_trunc) (coq_bool r.P.w_sticky)
+let coq_op = function
+  | P.ONew (k, f, ip, iu, sub) -> Printf.sprintf "ONew %s %s %s %s %s" (coq_z k) (coq_z f) (coq_bool ip) (coq_bool iu) (coq_list coq_nat sub)
+  | P.OAdd o -> "OAdd " ^ coq_nat o
+  | P.OPkt d -> "OPkt " ^ coq_zlist d
+let coq_perr = function
+  | P.ENil -> "ENil" | P.EUnsup t -> "(EUnsup " ^ coq_z t ^ ")" | P.ELayer -> "ELayer" | P.ERecovered -> "ERecovered" | P.EPanic -> "EPanic"
+let coq_sstate (x : P.sstate) =
+  Printf.sprintf "mkS %s %s %s %s %s" (coq_zlist x.P.s_contents) (coq_zlist x.P.s_payload) (coq_z x.P.s_next) (coq_z x.P.s_opt) (coq_z x.P.s_count)
+let coq_pres (r : P.sstate P.presult) =
+  Printf.sprintf "(mkR %s %s %s %s)" (coq_list coq_sstate r.P.r_store) (coq_zlist r.P.r_decoded) (coq_bool r.P.r_trunc) (coq_perr r.P.r_err)
+let coq_obs (o : P.obs) = Printf.sprintf "mkO %s %s %s" (coq_z o.P.o_kind) (coq_bool o.P.o_panic) (coq_option coq_pres o.P.o_res)
+let to_coq (idx : int) (ops : string list) (out : out_channel) =
+  match ops with
+  | f :: rest when String.length f >= 4 && String.sub f 0 4 = "fam:" ->
+    let body = String.sub f 4 (String.length f - 4) in
+    let rows = if body = "" then [] else Stdlib.List.map parse_row (split_on '|' body) in
+    let l = Stdlib.List.map parse_op rest in
+    let nbytes = Stdlib.List.fold_left (fun a o -> match o with P.OPkt d -> a + Stdlib.List.length d | _ -> a) 0 l in
+    if nbytes <= 200 then
+      coq_example out idx (Printf.sprintf "run_case %s\n    %s\n    %s" (coq_bool fixed) (coq_list coq_row rows) (coq_list coq_op l))
+        ("[" ^ String.concat ";\n     " (Stdlib.List.map coq_obs (P.run_case fixed rows l)) ^ "]")
+  | _ -> ()
+let registered_coq = Registry.register_coq "C05parser" ("From GP Require Import Base C05ParserModel.\n", to_coq)
